@@ -215,6 +215,30 @@ def run_shard(shard, out_base):
             branch = comp_value(rng, cls["branch_code"], wd["branch_code"], 0, kr)
             judge_generate(mon, S, cc, bank, acct, branch, table)
             judge_components(mon, S, cc, bank, acct, branch, table)
+        # arguments that are related to each other (what a user copies from a statement): the whole BBAN / the whole
+        # IBAN / bank + account in the account code next to the matching bank code, and domestic notations with a
+        # separator inside a digit string
+        if pos and "bank_code" in pos and "account_code" in pos:
+            for _ in range(3 if shard["tier"] == "quick" else 40):
+                bb = gen.random_bban(spec, rng, "digits")
+                from vf.ref import national as N_  # noqa: PLC0415
+
+                if cc in N_.LENGTHS:
+                    bb = N_.force_valid(cc, bb) or bb
+                bk = bb[pos["bank_code"][0] : pos["bank_code"][1]]
+                ac = bb[pos["account_code"][0] : pos["account_code"][1]]
+                br = bb[pos["branch_code"][0] : pos["branch_code"][1]] if "branch_code" in pos else ""
+                whole_iban = R.make_iban(cc, bb)
+                for acct_ in (bb, whole_iban, bk + ac, bk + br + ac, br + ac if br else bk + ac, ac + bb[-2:], " ".join(bb[i : i + 4] for i in range(0, len(bb), 4))):
+                    for br_ in ("", br):
+                        judge_generate(mon, S, cc, bk, acct_, br_, table)
+                        mon.tally("coordinated_arguments")
+                for sep in "-/. _":
+                    k_ = rng.randint(1, max(1, len(ac) - 2))
+                    for acct_ in (ac[:k_] + sep + ac[k_:], ac[:2] + sep + ac[2:], ac[: max(1, len(ac) - 2)][:k_] + sep + ac[k_ : max(1, len(ac) - 2)], "19" + sep + "2000145399"[: max(1, len(ac) - 3)]):
+                        judge_generate(mon, S, cc, bk, acct_, "", table)
+                        judge_components(mon, S, cc, bk, acct_, "", table)
+                        mon.tally("domestic_notations_with_separator")
         # sequences of from_components calls with different keyword subsets: what an earlier call supplied
         # must never show up in a later one (omitted components are empty)
         if pos:
